@@ -81,6 +81,22 @@ CHECKS['C19'] = ('DESIGN.md#C19',
     'Trusted: numpy, scipy PchipInterpolator semantics. Bins with ambiguous '
     'pixel-centre classifications are skipped and counted.')
 
+CHECKS['C05'] = ('DESIGN.md#C05',
+    'Hypothesis-generated operation histories (model-based/stateful): '
+    'mutators, reads, copy, slicing, data assignment and invalid calls '
+    'interpreted against a numpy reference model; invariant = every derived '
+    'attribute equals a fresh SegmentationImage of the model array',
+    'Generated-history search over small label arrays of every integer dtype '
+    '(painted, random, and detect+deblend results): after every step the '
+    'array (values and dtype) must equal the documented set-theoretic '
+    'effect and all 16 derived attributes (incl. segments, polygons and the '
+    'deblended-label maps) must equal those of a freshly constructed object; '
+    'objects left behind by copy()/slicing must stay frozen. Held on N '
+    'histories; not a proof.',
+    'Trusted: numpy, scipy.ndimage.label (component count for the polygon '
+    'oracle), shapely area. Known finding F3b (disconnected labels) is '
+    'deferred to the end of each history and counted.')
+
 NOT_APPLICABLE = []
 
 
